@@ -14,7 +14,9 @@ import numpy as np
 from odl.operator.operator import (
     Operator, OperatorComp, OperatorLeftScalarMult, OperatorRightScalarMult,
     OperatorRightVectorMult, OperatorSum, OperatorPointwiseProduct)
-from odl.operator.default_ops import (IdentityOperator, ConstantOperator)
+from odl.operator.default_ops import (
+    IdentityOperator, ConstantOperator, MultiplyOperator)
+from odl.set import Field
 from odl.solvers.nonsmooth import (proximal_arg_scaling, proximal_translation,
                                    proximal_quadratic_perturbation,
                                    proximal_const_func, proximal_convex_conj)
@@ -204,7 +206,13 @@ class Functional(Operator):
         -------
         derivative : `Operator`
         """
-        return self.gradient(point).T
+        grad = self.gradient(point)
+        if isinstance(self.domain, Field):
+            # The gradient is a scalar, the derivative multiplies by it
+            return MultiplyOperator(grad, domain=self.domain,
+                                    range=self.range)
+        else:
+            return grad.T
 
     def translated(self, shift):
         """Return a translation of the functional.
